@@ -92,3 +92,15 @@ func GenTrickle(t *rapid.T) *RaceCase {
 		Ctx:      rapid.Bool().Draw(t, "ctx"),
 	}
 }
+
+func GenRunning(t *rapid.T) *RunningCase {
+	c := &RunningCase{Pubs: rapid.IntRange(1, 8).Draw(t, "pubs"), GapMs: rapid.SampledFrom([]int{0, 0, 1, 5}).Draw(t, "gap"),
+		OneCtx: rapid.Bool().Draw(t, "oneCtx"), Shutdown: rapid.IntRange(0, 2).Draw(t, "shutdown") == 0,
+		WaitMs: rapid.SampledFrom([]int{0, 0, 1, 7, 30}).Draw(t, "waitAt"), Procs: rapid.SampledFrom([]int{1, 2, 4, 16}).Draw(t, "procs")}
+	n := rapid.IntRange(1, 4).Draw(t, "nh")
+	for i := 0; i < n; i++ {
+		c.Handlers = append(c.Handlers, RunH{Seq: rapid.IntRange(0, 2).Draw(t, "seq") != 0, Ctx: rapid.Bool().Draw(t, "ctx"), WorkMs: rapid.SampledFrom([]int{1, 3, 10, 40}).Draw(t, "work")})
+	}
+	c.CancelMs = rapid.IntRange(0, 60).Draw(t, "cancelAt")
+	return c
+}
